@@ -317,6 +317,13 @@ func C12(p *Prog, r *Run) {
 		r.c12Windows()
 	})
 
+	r.Rule("C12.7", "step counts: Network.ForwardSteps and the fast solver's ForwardSteps perform one sweep call per counter value 0..steps-1 and leave the loop early only on error; Relax additionally stops when the step reports a relaxed network; forwardStep's relaxed flag starts true, is cleared by the |old-new| > delta test of the neuron being committed, and never returns to true within a sweep", func() {
+		r.c12StepLoop(p.Func(PkgN, "Network.ForwardSteps"), p.Func(PkgN, "Network.ActivateSteps"), 1, false, "Network.ForwardSteps")
+		r.c12StepLoop(p.Func(PkgN, "FastModularNetworkSolver.ForwardSteps"), p.Func(PkgN, "FastModularNetworkSolver.forwardStep"), 1, false, "Fast.ForwardSteps")
+		r.c12StepLoop(p.Func(PkgN, "FastModularNetworkSolver.Relax"), p.Func(PkgN, "FastModularNetworkSolver.forwardStep"), 1, true, "Fast.Relax")
+		r.c12RelaxFlag()
+	})
+
 	r.Rule("C12.4", "sum-then-activate: the standard sweep adds ConnectionWeight*source.GetActiveOut() for every incoming link and activates from that sum; the fast sweeps add signal[source]*weight into signal[target]", func() {
 		as := p.Func(PkgN, "Network.ActivateSteps")
 		r.Fn(FuncName(as))
